@@ -7,7 +7,7 @@ def run(rep, tier, seed):
     rep.rule = ("programs: call sites {include, include+ctx, exec, exec+ctx, includeIfExists(+ctx), missing template for each} "
                 "at wrapper depth <=1 (quick) / <=2 (thorough) inside {range, yield content, try, include, if-let} x callee "
                 "shape {plain, extends 1 level, extends 2 levels} x 12 return placements; the callee declares variables, rebinds "
-                "'.', yields a block of the includer; probes after the call; all non-trivial; distinct by program")
+                "'.', yields a block of the includer; probes after the call; all non-trivial; distinct by program. Probe: every spelling of one exec / includeIfExists call (plain, colon, '_' first, '_' second; with/without context; missing template) renders the same, twice")
     d = 1 if tier == "quick" else 2
     gen_and_replay(rep, wd, exe, "Gen_C09.tla", "C09_d%d" % d, {"Depth": d}, {})
     rep.exhaustive = True
